@@ -267,6 +267,21 @@ def check_fallback(ctx):
                     if o.ok or o.kind != 'CalculationError':
                         ctx.violate(core.make_violation({'check': 'fallback-not-refused', 'method': meth, 'outcome': 'returned' if o.ok else o.kind},
                                                         f'[{kname}] {meth}(calculate={calc}) {o.brief()} instead of CalculationError', {'kind': kname, 'method': meth}))
+    # the unit argument is honoured on the fallback path too (all 8 units; stored value is in Pa)
+    from mc import ref_units as ru
+    mk_super = lambda: pygaps.Adsorbate('c20-e', backend_name='Nitrogen', saturation_pressure=6.0e6)     # noqa: E731  (queried above its critical point)
+    for kname, mk, T in (('no backend, all properties', kinds['no backend, all properties'], 250.0), ('bogus backend, all properties', kinds['bogus backend, all properties'], 250.0),
+                         ('backend above the critical temperature, stored value', mk_super, 300.0)):
+        for unit in ru.P_UNITS:
+            for calc in (True, False):
+                o = core.call(mk().saturation_pressure, T, unit=unit, calculate=calc)
+                ev += 1
+                nt += 1
+                exp = 6.0e6 / ru.P_UNITS[unit]
+                if not o.ok or abs(o.value - exp) > 1e-3 * abs(exp):
+                    ctx.violate(core.make_violation({'check': 'fallback-unit', 'calculate': calc},
+                                                    f'[{kname}] saturation_pressure({T}, unit={unit!r}, calculate={calc}) = {o.value if o.ok else o.brief()} but the stored 6e6 Pa is {exp} {unit}',
+                                                    {'kind': kname, 'unit': unit}, exp, o.value if o.ok else o.brief()))
     # super-critical temperature for a backend-linked adsorbate: no saturation state exists
     n2 = pygaps.Adsorbate.find('N2')
     for meth in ('saturation_pressure', 'liquid_density', 'gas_density', 'surface_tension', 'enthalpy_vaporisation'):
@@ -302,13 +317,48 @@ def check_replacement(ctx):
                     o = core.call(q.adsorbate_to_db, custom, db_path=work, overwrite=True, verbose=False)
                     if not o.ok:
                         continue
-                now = pygaps.Adsorbate.find(s)
-                second = BaseIsotherm(material='c20', adsorbate=s, temperature=300.0)
+                fnd = core.call(pygaps.Adsorbate.find, s)
                 ev += 1
                 nt += 1
+                if not fnd.ok:
+                    ctx.violate(core.make_violation({'check': 'name-no-longer-resolves', 'how': how},
+                                                    f'after the registered {old.name!r} was replaced ({how}) Adsorbate.find({s!r}) {fnd.brief()}', {'string': s}))
+                    continue
+                now = fnd.value
+                second = BaseIsotherm(material='c20', adsorbate=s, temperature=300.0)
                 if second.adsorbate is not now:
                     ctx.violate(core.make_violation({'check': 'isotherm-linked-to-stale-adsorbate', 'how': how},
                                                     f'after the registered {old.name!r} was replaced ({how}) an isotherm created with {s!r} is linked to an object that is not Adsorbate.find({s!r})', {'string': s}))
+        # storing a SHIPPED adsorbate in another database (directly or with an isotherm) leaves the registry as it was
+        from mc import ref_store as rs
+        for how in ('adsorbate_to_db', 'isotherm_to_db(autoinsert_adsorbate=True)'):
+            for name in ('nitrogen', 'carbon dioxide', 'n-butane'):
+                pygaps.ADSORBATE_LIST[:] = base
+                ads = pygaps.Adsorbate.find(name)
+                strings = sorted({v for al in [ads.name] + list(ads.alias) for v in variants(al)})
+                alias_before = list(ads.alias)
+                rs.create_template(work)      # schema only
+                if how == 'adsorbate_to_db':
+                    up = core.call(q.adsorbate_to_db, ads, db_path=work, verbose=False)
+                else:
+                    up = core.call(q.isotherm_to_db, BaseIsotherm(material='c20', adsorbate=name, temperature=300.0), db_path=work, autoinsert_material=True,
+                                   autoinsert_adsorbate=True, verbose=False)
+                if not up.ok:
+                    raise core.HarnessError(f'{how} of the shipped {name!r} into an empty database failed: {up.brief()}')
+                for st in strings:
+                    fnd = core.call(pygaps.Adsorbate.find, st)
+                    ev += 1
+                    nt += 1
+                    if not fnd.ok or fnd.value is not ads:
+                        ctx.violate(core.make_violation({'check': 'upload-changes-registry', 'how': how},
+                                                        f'after {how} of the shipped {ads.name!r} into another database Adsorbate.find({st!r}) '
+                                                        f'{"returns another object" if fnd.ok else fnd.brief()[:120]} (aliases before {alias_before[:4]}.., now {list(ads.alias)[:4]}..)',
+                                                        {'string': st}))
+                        break
+                iso = core.call(BaseIsotherm, material='c20', adsorbate=ads.name, temperature=300.0)
+                if not iso.ok or iso.value.adsorbate is not ads:
+                    ctx.violate(core.make_violation({'check': 'upload-changes-registry', 'how': how, 'via': 'isotherm'},
+                                                    f'after {how} of the shipped {ads.name!r} an isotherm created with {ads.name!r} is not linked to it', {}))
     finally:
         pygaps.ADSORBATE_LIST[:] = base
     ctx.add('replacement', ev, nt)
